@@ -10,7 +10,8 @@ DESCRIPTION = {
              "message; request ids are 1,2,3.. in issue order; the message carries the given URI/args/kwargs and the option attributes computed by an independent option->wire "
              "table; each returned Deferred/Future completes at most once, exactly once after its matching reply, with the reply's content (result shape rules) or an "
              "ApplicationError with the reply's URI/args/kwargs; no other pending result changes state; progressive results reach only that call's on_progress; duplicate / "
-             "unknown / wrong-type replies raise ProtocolError and complete nothing.  IdGenerator is checked directly around 2^53.  Non-trivial = >=2 outstanding requests of "
+             "unknown / wrong-type replies raise ProtocolError and complete nothing.  Exhaustive cross-type job: each of the 6 request kinds pending alone x each of the 5 other reply types x {success form, ERROR form} x 3 "
+             "serializers - the wrong-type reply bearing the pending id is a protocol violation and the genuine reply still completes the request.  IdGenerator is checked directly around 2^53.  Non-trivial = >=2 outstanding requests of "
              "different kinds answered in non-issue order; distinct by digest of the operation sequence."),
     "assumptions": ["progressive results for calls that did not ask for them are a router fault and not generated"],
 }
